@@ -42,6 +42,51 @@ func c20(w *World) {
 			Sender: fmt.Sprintf("Client%d", i), Target: "Server", CloseTimeout: time.Second}, cli)
 		inis = append(inis, ini)
 	}
+	// one more connection, driven by a scripted peer that stutters: silent until the library's
+	// TestRequest arrives, one answer of a drawn type, silent again until the next TestRequest, ...
+	// so that the inbound-silence timer really expires several times between single inbound messages
+	// (on a link with steady traffic the timer's own lock would order every state access)
+	stutterDone := false
+	var stutterIni *InitSide
+	stutter := func(cl *Client, n int) {
+		cl.Step(cl.Msg("A", LogonFields(n, "0", "", "")...))
+		seen := 0
+		for round := 0; round < 3+w.W.Draw(3) && !cl.P.EOF; round++ {
+			for i := 0; i < 40*(n+2) && !cl.P.EOF; i++ {
+				simrt.Sleep(100 * time.Millisecond)
+				if k := count(cl.P.Msgs(), "1"); k > seen {
+					seen = k
+					break
+				}
+			}
+			if cl.P.EOF {
+				break
+			}
+			switch w.W.Draw(3) {
+			case 0:
+				cl.P.Send(cl.Msg("0", F(TagTestReqID, itoa(seen))))
+			case 1:
+				cl.P.Send(cl.Msg("V", F(262, "st"+itoa(round)), F(263, "1"), F(264, "0")))
+			default:
+				cl.P.Send(cl.Msg("1", F(TagTestReqID, "st"+itoa(round))))
+			}
+			w.Probe("timer_expired_between_single_messages")
+		}
+		if !cl.P.EOF && w.W.Chance(1, 2) {
+			cl.P.Send(cl.Msg("5"))
+		}
+		stutterDone = true
+	}
+	if w.W.Chance(1, 2) {
+		cl := w.NewClient(acc, "stutter", "STUTTER", "LIB")
+		simrt.GoHarness("stutter-peer", func() { stutter(cl, 1) })
+	} else {
+		a, b := w.Net.Pipe("stutter", -1, -1)
+		cl := &Client{w: w, P: NewPeer(w, b, "stutter"), PeerID: "Server", LibID: "ClientS"}
+		stutterIni = w.StartInitiator(InitCfg{HandlerBuf: buf, ConnBuf: buf, WriteDeadline: time.Minute, HeartBtInt: 1, RawStore: memory.NewStorage(),
+			Sender: "ClientS", Target: "Server", CloseTimeout: time.Second}, a)
+		simrt.GoHarness("stutter-peer", func() { cl.Settle(); stutter(cl, 1) })
+	}
 	simrt.Sleep(200 * time.Millisecond)
 	simrt.Settle()
 	logged := 0
@@ -50,7 +95,8 @@ func c20(w *World) {
 			logged++
 		}
 	}
-	if logged == 0 || len(acc.Sess) == 0 {
+	accSess := acc.Sessions()
+	if logged == 0 || len(accSess) == 0 {
 		w.Inconclusive = "logon-failed"
 		return
 	}
@@ -102,7 +148,7 @@ func c20(w *World) {
 			pause()
 		})
 	}
-	for _, as := range acc.Sess {
+	for _, as := range accSess {
 		as := as
 		for t := 0; t < 1+w.W.Draw(2); t++ {
 			spawn("acc-sender", func(i int) {
@@ -152,11 +198,22 @@ func c20(w *World) {
 			in.I.Close()
 		}
 	}
-	if w.W.Chance(1, 2) && len(acc.Sess) > 0 {
-		_ = acc.Sess[0].S.Stop()
+	if w.W.Chance(1, 2) && len(accSess) > 0 {
+		_ = accSess[0].S.Stop()
 	}
 	simrt.Sleep(1500 * time.Millisecond)
+	// give the stuttering connection time for its expiries (each takes about 2 s at HeartBtInt 1)
+	for i := 0; i < 200 && !stutterDone; i++ {
+		simrt.Sleep(100 * time.Millisecond)
+	}
 	stop = true
+	if stutterIni != nil {
+		if w.W.Chance(1, 2) {
+			_ = stutterIni.S.Stop()
+			simrt.Sleep(1100 * time.Millisecond)
+		}
+		stutterIni.I.Close()
+	}
 	for _, in := range inis {
 		in.I.Close()
 	}
